@@ -217,6 +217,13 @@ def explore_shard(acc, shard):
                 acc.violation(f["clause"], case, str(f["expected"])[:300], str(f["observed"])[:300], signature=("scale", f["clause"]))
         if case:
             acc.sample(layer, case)
+    elif kind == "V":
+        layer = "V vocabulary (values that mean something elsewhere) in every context"
+        for ctx in CONTEXTS:
+            for tok in (X.KEY_VOCABULARY + X.VOCABULARY if ctx == "key" else X.VOCABULARY):
+                run_value(acc, layer, ctx, tok)
+        acc.outcome("vocabulary value")
+        acc.sample(layer, {"kind": "value", "context": CONTEXTS[-1], "value": X.VOCABULARY[-1]})
     elif kind == "F":
         # SM chart fields holding values that would be at home in another field (difficulty names, numbers,
         # step types, radar lists, nothing), with and without extra components
@@ -290,6 +297,7 @@ def explore(run):
         shards.append(("S", part, 8, run.thorough()))
     for v in FIELD_VALUES:
         shards.append(("F", v))
+    shards.append(("V",))
     k = run.seed % len(shards)
     shards = shards[k:] + shards[:k]
     run.merge(core.pmap(explore_shard, shards, run.seed))
@@ -310,11 +318,13 @@ def explore(run):
         + " W: from every small initial state one uninterrupted history on one live object in which every ordered pair of operations (incl. serialize) occurs consecutively (order-2 de Bruijn sequence, about 2000 steps), compared with the model after every step, round trip every 16 steps."
         + " S: scale simfiles - one-line lists of 7..700 entries, each of : // \\ ; at every offset in a window before 4096 and 8192 (thorough 16384, 65536) in the first property, the note data and a description, 17 / 130 / 1100 charts, 400 properties."
         + " F: one SM chart with every assignment of 6 values (empty, a difficulty name, a number, a step type, a radar list, two lines) to its six fields x 4 extra-component lists."
+        + f" V: each of {len(X.VOCABULARY)} values that mean something to StepMania, Python or a filesystem (difficulty names old and new, attack syntax, numbers in other spellings, entity / escape / format / path look-alikes, key names, Unicode normal forms) in each of the 12 contexts, and {len(X.KEY_VOCABULARY)} key look-alikes as keys."
     )
     run.assumptions = [
         "msdparser is the trusted tokenizer/escaper; its escaping gaps are excluded operationally and reported as known findings",
         "mc/models/msd.py states the parameter list the repository must emit",
     ]
+    core.require(acc.outcomes["vocabulary value"] > 0, "no vocabulary")
     core.require(acc.outcomes["chart fields permuted"] > 0, "no permuted chart fields")
     core.require(acc.outcomes["scale simfile"] > 0, "no scale simfile")
     core.require(acc.outcomes["long walk on one live object"] > 0, "no long walk")
